@@ -102,6 +102,11 @@ pub struct Sc {
     /// command twice").
     #[serde(default)]
     pub fx: Option<FxSpec>,
+    /// End-to-end lane: the same input and modes are also run by the REAL acb binary (clap layer,
+    /// main, home-directory look-up) in real OS processes whose entropy, clock and pid the
+    /// simulator owns through an LD_PRELOAD seam; the first three hash seeds are used.
+    #[serde(default)]
+    pub e2e: bool,
 }
 
 #[derive(Clone, Debug, Serialize, Deserialize, PartialEq)]
@@ -416,7 +421,8 @@ pub fn generate(seed: u64, k_seeds: usize) -> Sc {
     } else {
         None
     };
-    Sc { files, modes: ALL_MODES.to_vec(), symbol_base, summarize_before: sum_day.to_string(), today: d(start_year + 4, 6, 15).to_string(), hash_seeds, max_read, fx }
+    let e2e = fx.is_none() && r.chance(1, 10);
+    Sc { files, modes: ALL_MODES.to_vec(), symbol_base, summarize_before: sum_day.to_string(), today: d(start_year + 4, 6, 15).to_string(), hash_seeds, max_read, fx, e2e }
 }
 
 fn set_aff(row: &mut [String], a: &str, r: &mut Rng) {
@@ -540,6 +546,115 @@ pub fn run_once_in(sc: &Sc, mode: Mode, hash_seed: u64, keep_cache: bool, boc: O
         None => (perm, 0),
     };
     RunOutput { stdout: out.stdout, stderr: out.stderr, files, ok, panic, perm, unmodelled: out.unmodelled, downloads }
+}
+
+// ------------------------------------------------ end-to-end lane (real acb processes)
+
+/// Directory holding the real `acb` binary built from /repo's working tree (debug/acb) and the
+/// LD_PRELOAD seam (libsimseed.so); the check script builds both.
+pub fn e2e_dir() -> String {
+    match std::env::var("VERIF_E2E_DIR") {
+        Ok(d) if !d.is_empty() => d,
+        _ => "/verif/target/e2e".to_string(),
+    }
+}
+
+fn e2e_scratch() -> String {
+    let base = if crate::common::out_dir() == "/verif" { "/verif/target".to_string() } else { crate::common::out_dir() };
+    format!("{}/e2e-run/{}", base, std::process::id())
+}
+
+/// Once per OS process: the preload really owns the RandomState keys, clock and pid of a real process.
+fn e2e_seam_check() -> Result<(), String> {
+    static CHECK: std::sync::OnceLock<Result<(), String>> = std::sync::OnceLock::new();
+    CHECK
+        .get_or_init(|| {
+            let dir = e2e_dir();
+            let so = format!("{}/libsimseed.so", dir);
+            let bin = format!("{}/debug/acb", dir);
+            if !std::path::Path::new(&so).exists() || !std::path::Path::new(&bin).exists() {
+                return Err(format!("end-to-end lane: {} or {} missing (run /verif/check setup)", so, bin));
+            }
+            let probe = std::env::current_exe().ok().and_then(|p| p.parent().map(|d| d.join("hashprobe"))).ok_or("no exe dir")?;
+            let run = |seed: &str| -> Result<String, String> {
+                let o = std::process::Command::new(&probe).env_clear().env("LD_PRELOAD", &so).env("ACBSIM_SEED", seed).env("ACBSIM_NOW", "1600000000").env("ACBSIM_PID", "4242").output().map_err(|e| format!("cannot run {:?}: {}", probe, e))?;
+                Ok(String::from_utf8_lossy(&o.stdout).to_string())
+            };
+            let (a, a2, b) = (run("1")?, run("1")?, run("2")?);
+            if a != a2 || a == b || !a.contains("now=1600000000 pid=4242") {
+                return Err(format!("end-to-end lane: the LD_PRELOAD seam does not own entropy/clock/pid of a real process: {:?} / {:?} / {:?}", a, a2, b));
+            }
+            Ok(())
+        })
+        .clone()
+}
+
+fn mode_args(mode: Mode, summarize_before: &str, out_dir: &str) -> Vec<String> {
+    let s = |x: &str| x.to_string();
+    match mode {
+        Mode::Text => vec![],
+        Mode::TextFull => vec![s("--print-full-values")],
+        Mode::TotalCosts => vec![s("--total-costs")],
+        Mode::CsvDir => vec![s("--csv-output-dir"), s(out_dir)],
+        Mode::TotalCostsCsvDir => vec![s("--total-costs"), s("--print-full-values"), s("-d"), s(out_dir)],
+        Mode::Summary => vec![s("--summarize-before"), s(summarize_before)],
+        Mode::SummaryAnnual => vec![s("--summarize-before"), s(summarize_before), s("--summarize-annual-gains")],
+    }
+}
+
+/// One real acb process: real files in a scratch directory, real clap/main, real exit status.
+pub fn run_e2e(sc: &Sc, mode: Mode, hash_seed: u64, used_out_dir: Option<&Vec<(String, Vec<u8>)>>) -> Result<RunOutput, String> {
+    let dir = e2e_dir();
+    let root = e2e_scratch();
+    let _ = std::fs::remove_dir_all(&root);
+    for sub in ["in", "out", "home"] {
+        std::fs::create_dir_all(format!("{}/{}", root, sub)).map_err(|e| format!("e2e scratch {}: {}", root, e))?;
+    }
+    let mut args: Vec<String> = vec![];
+    for f in &sc.files {
+        let p = format!("{}/in/{}", root, f.name);
+        std::fs::write(&p, f.text()).map_err(|e| format!("e2e write {}: {}", p, e))?;
+        args.push(format!("in/{}", f.name));
+    }
+    if let Some(old) = used_out_dir {
+        for (n, data) in old {
+            let mut longer = data.clone();
+            longer.extend_from_slice(STALE_TAIL);
+            std::fs::write(format!("{}/out/{}", root, n), &longer).map_err(|e| e.to_string())?;
+        }
+    }
+    for b in &sc.symbol_base {
+        args.push("-b".to_string());
+        args.push(b.clone());
+    }
+    args.extend(mode_args(mode, &sc.summarize_before, "out"));
+    let today = parse_date(&sc.today);
+    let now = (today - d(1970, 1, 1)).whole_days() * 86_400 + 43_200 + (hash_seed % 21_600) as i64 - 10_800;
+    let o = std::process::Command::new(format!("{}/debug/acb", dir))
+        .args(&args)
+        .current_dir(&root)
+        .env_clear()
+        .env("HOME", format!("{}/home", root))
+        .env("TZ", "UTC")
+        .env("LD_PRELOAD", format!("{}/libsimseed.so", dir))
+        .env("ACBSIM_SEED", hash_seed.to_string())
+        .env("ACBSIM_NOW", now.to_string())
+        .env("ACBSIM_PID", (1000 + hash_seed % 30_000).to_string())
+        .stdin(std::process::Stdio::null())
+        .output()
+        .map_err(|e| format!("cannot start the real acb binary: {}", e))?;
+    let mut files: Vec<(String, Vec<u8>)> = vec![];
+    if let Ok(rd) = std::fs::read_dir(format!("{}/out", root)) {
+        for e in rd.flatten() {
+            let name = e.file_name().to_string_lossy().to_string();
+            let data = std::fs::read(e.path()).map_err(|e| e.to_string())?;
+            files.push((name, data));
+        }
+    }
+    files.sort();
+    let _ = std::fs::remove_dir_all(&root);
+    let signalled = o.status.code().is_none();
+    Ok(RunOutput { stdout: o.stdout, stderr: o.stderr, files, ok: o.status.code().map(|c| c == 0), panic: if signalled || o.status.code() == Some(101) { Some(format!("real process ended with {:?}", o.status)) } else { None }, perm: String::new(), unmodelled: vec![], downloads: 0 })
 }
 
 pub struct NoNetwork {}
@@ -832,7 +947,13 @@ impl Engine for C09 {
             st.bump("probe.header_repeats_a_recognised_column");
             nontrivial = true;
         }
+        // Demonstration knob (sensitivity of the end-to-end lane on its own): skip the simulated
+        // processes and send every input without look-ups through the real binary.
+        let only_e2e = std::env::var("VERIF_C09_ONLY_E2E").map(|v| v == "1").unwrap_or(false);
         for mode in &sc.modes {
+            if only_e2e {
+                break;
+            }
             let mut first: Option<(u64, RunOutput)> = None;
             for (hi, hs) in sc.hash_seeds.iter().enumerate() {
                 // every other later process finds the output directory used by an earlier, longer run
@@ -881,6 +1002,53 @@ impl Engine for C09 {
                         if let Some(v) = compare(o0, &out, *mode, *s0, *hs) {
                             if !violations.iter().any(|x: &Violation| x.kind == v.kind && x.signature == v.signature) {
                                 violations.push(v);
+                            }
+                        }
+                    }
+                }
+            }
+        }
+        if (sc.e2e || only_e2e) && sc.fx.is_none() {
+            match e2e_seam_check() {
+                Err(e) => st.harness_error(e),
+                Ok(()) => {
+                    st.bump("probe.e2e_inputs_run_by_the_real_binary");
+                    'modes: for mode in &sc.modes {
+                        let mut first: Option<(u64, RunOutput)> = None;
+                        for (hi, hs) in sc.hash_seeds.iter().take(3).enumerate() {
+                            let used = if hi % 2 == 1 && matches!(mode, Mode::CsvDir | Mode::TotalCostsCsvDir) { first.as_ref().map(|f| &f.1.files).filter(|f| !f.is_empty()) } else { None };
+                            let out = match run_e2e(sc, *mode, *hs, used) {
+                                Ok(o) => o,
+                                Err(e) => {
+                                    st.harness_error(e);
+                                    break 'modes;
+                                }
+                            };
+                            st.bump("sim.real_os_processes");
+                            digest = fnv64_add(digest, &out.stdout);
+                            for f in &out.files {
+                                digest = fnv64_add(digest, f.0.as_bytes());
+                                digest = fnv64_add(digest, &f.1);
+                            }
+                            if hi == 0 {
+                                // fidelity: the simulated process and the real process print the same bytes
+                                let sim = run_once(sc, *mode, *hs);
+                                if sim.stdout == out.stdout && sim.files == out.files {
+                                    st.bump("probe.e2e_real_process_output_equals_simulated_process_output");
+                                } else {
+                                    st.bump("note.e2e_real_process_output_differs_from_simulated");
+                                }
+                            }
+                            match &first {
+                                None => first = Some((*hs, out)),
+                                Some((s0, o0)) => {
+                                    if let Some(mut v) = compare(o0, &out, *mode, *s0, *hs) {
+                                        v.detail = format!("real acb processes (end-to-end lane): {}", v.detail);
+                                        if !violations.iter().any(|x: &Violation| x.kind == v.kind && x.signature == v.signature) {
+                                            violations.push(v);
+                                        }
+                                    }
+                                }
                             }
                         }
                     }
@@ -969,6 +1137,11 @@ impl Engine for C09 {
         if sc.max_read != usize::MAX {
             let mut s = sc.clone();
             s.max_read = usize::MAX;
+            c.push(s);
+        }
+        if sc.e2e {
+            let mut s = sc.clone();
+            s.e2e = false;
             c.push(s);
         }
         // blank optional cells
